@@ -6,4 +6,9 @@ CHECKS = [
   "design_ref": "DESIGN.md 7 C05",
   "level_note": "Trusts CPython's UTF-8 codec and the sanitizer runtimes; says nothing about inputs not generated; intra-object overflows are visible only through wrong results.",
   "technique": "runtime differential monitoring of the two quoter backends (exhaustive kernels + seeded stress), quoter shadow monitor, ASan/UBSan build with allocation-shim log"},
+ {"property_id": "C07", "category": "exploration",
+  "text": "Reference-model monitor: every input (exhaustive over a 9-symbol delimiter alphabet up to length 6/7 in encoded mode and 5/6 in auto mode, a 14-symbol extended alphabet, structured delimiter permutations with whitespace/control prefixes, seeded random URL texts) is split by an independent transcription of RFC 3986 Appendix B + authority split; yarl's components (verbatim in encoded=True mode, decode-equivalent in auto mode), its accept/reject decision and the RFC 5.3 re-composition of its raw accessors against str(url) are compared online. Held = no disagreement outside the declared gray zones on the executions produced.",
+  "design_ref": "DESIGN.md 7 C07",
+  "level_note": "Oracle = my transcription of the RFC; gray zones (scheme-like prefix with a non-letter first char, text around brackets, lenient int() ports, IDNA outcome) accept either behaviour and are counted.",
+  "technique": "runtime monitoring against an independent RFC 3986 split/re-composition reference model (exhaustive kernels + seeded random)"},
 ]
